@@ -352,11 +352,45 @@ def run(ctx):
             b.client.close()
         except Exception:
             pass
+    threaded_streams(ctx, 160 if ctx.quick else 3000)
+
+
+def threaded_streams(ctx, n):
+    """responses dispatched by another thread of the requester's side (background serving thread): every response must still reach
+    the request with its number.  Reuses the deterministic thread scheduler of C13."""
+    import random
+    from harness import C13 as T
+    for k in range(n):
+        nc = ctx.rng.choice([1, 2, 3])
+        order = list(range(nc)); ctx.rng.shuffle(order)
+        seed, stick = ctx.rng.randrange(10**9), ctx.rng.choice([0.0, 0.2, 0.5])
+        chooser = T.make_chooser(seed, stick)
+        out = T.scenario(nc, True, order, chooser)
+        case = {"threads": {"clients": nc, "order": order, "seed": seed, "stick": stick}}
+        ctx.case(("threads", nc, tuple(order), seed), nontrivial=True)
+        ctx.count("threaded-streams")
+        for i in range(nc):
+            r = out["results"].get(i)
+            if r != "p%d" % i:
+                ctx.violation("response-not-delivered-to-its-request:" + str(r)[:30], case, observed={"results": out["results"], "pending_left": out["pending_left"], "inq_left": out["inq_left"]},
+                              expected="p%d" % i, what="a response crossed the wire but did not reach the request with its number (dispatched by another thread)")
+        for q, c in out["dispatch_count"].items():
+            if c != 1:
+                ctx.violation("response-dispatched-%d-times" % c, case, observed=c, expected=1, what="a response was delivered more than once")
 
 
 def replay(ctx, rep):
     import random
     cs = rep["case"]
+    if "threads" in cs:
+        from harness import C13 as T
+        t = cs["threads"]; chooser = T.make_chooser(t["seed"], t["stick"])
+        out = T.scenario(t["clients"], True, t["order"], chooser)
+        ctx.case(("replay", t["seed"]), True)
+        for i in range(t["clients"]):
+            if out["results"].get(i) != "p%d" % i:
+                ctx.violation("response-not-delivered-to-its-request:" + str(out["results"].get(i))[:30], cs, observed=out["results"], expected="p%d" % i, what="a response did not reach its request")
+        return
     rr = random.Random(cs["seed"])
     rr.choice([8, 15, 40])
     b, expect, raw_reqs, usable = run_stream(ctx, rr, cs["nops"])
